@@ -326,6 +326,30 @@ def discharge(ob, inputs=None, timeout_ms=10000, extra=None):
     return out
 
 
+def free_consts(exprs):
+    """the uninterpreted constants occurring in the expressions: {name: const}"""
+    seen, out, todo = set(), {}, list(exprs)
+    while todo:
+        e = todo.pop()
+        if e.get_id() in seen:
+            continue
+        seen.add(e.get_id())
+        if z3.is_const(e) and e.decl().kind() == z3.Z3_OP_UNINTERPRETED:
+            out[e.decl().name()] = e
+        elif z3.is_app(e):
+            todo.extend(e.children())
+        elif z3.is_quantifier(e):
+            todo.append(e.body())
+    return out
+
+
+def rename_apart(exprs, keep, suffix):
+    """the expressions with every uninterpreted constant not named in `keep` renamed by the suffix (a second copy of a path)"""
+    fc = free_consts(exprs)
+    sub = [(v, z3.Const(n + suffix, v.sort())) for n, v in fc.items() if n not in keep]
+    return [z3.substitute(e, *sub) if sub else e for e in exprs]
+
+
 def smt2_of(ob, extra=None):
     s = z3.Solver()
     for c in ob.pc:
